@@ -158,6 +158,10 @@ def rand_tags(rng, n=None, allow_repeat=False, with_tp=True, cigar=None, with_ds
         out.insert(rng.randint(0, len(out)), "tp:A:" + rng.choice("PSIP"))
     if with_ds and rng.random() < 0.3:
         out.insert(rng.randint(0, len(out)), "ds:Z:" + rng.choice(["=ACG*at+g", "*ac", "=TT"]))
+    if rng.random() < 0.06:
+        # only ds:Z: is the documented exception; a field named ds of another type is an ordinary optional field
+        ty = rng.choice("ifAHB")
+        out.insert(rng.randint(0, len(out)), "ds:%s:%s" % (ty, tag_value(rng, ty)))
     if cigar is not None:
         out.insert(rng.randint(0, len(out)), "cg:Z:" + cigar)
     return out
